@@ -764,9 +764,6 @@ class C13(Prop):
         with _Patched() as P:
             mn, mx = _consts(P.T, "tcp")
             res.extra["packet_sizes"] = {"tcp": [mn, mx], "udp": list(_consts(P.T, "udp"))}
-            if mn != 0:
-                res.broken.append(Broken("correspondence", "QMI_TcpTransport.MIN_PACKET_SIZE",
-                                         f"theorem readUntilTimeout_le_n_tcp assumes MIN_PACKET_SIZE = 0, found {mn}"))
             n = ctx.scale(45000, 600000)
             scen = [_gen_scenario(ctx.rng, KINDS[i % 3], ctx.scale(10, 16)) for i in range(n)]
             self._differential(ctx, P, scen, res, "random")
@@ -775,10 +772,10 @@ class C13(Prop):
             if ctx.quick:
                 sweep = ctx.rng.sample(sweep, 2500)
             self._differential(ctx, P, sweep, res, "sweep")
-            # the witness of `readUntilTimeout_le_n_udp_false` (Props/C13.lean), replayed on the real code
-            wit = {"kind": "udp", "steps": [["feed", [[1, "d", "010203"]]], ["open"], ["rut", 1, 0]]}
-            c, _ = _check(P, wit)
-            res.extra["lean_witness_rut_udp_on_impl"] = c[0] if c else "holds"
+            # regression input of the repaired defect 916a4b4 (`udpWitness` in Props/C13.lean): a 3-byte datagram,
+            # read_until_timeout(1, 0) must return 1 byte and keep 2 — evaluated by the ordinary oracle
+            wit = {"kind": "udp", "steps": [["feed", [[1, "d", "010203"]]], ["open"], ["rut", 1, 0], ["rut", 5, 0]]}
+            self._differential(ctx, P, [wit], res, "regression")
         return res
 
     def search(self, ctx: Ctx, broken) -> Result:
